@@ -5,6 +5,8 @@
      HDR <NONE|x<header>> <NOBAG|BAG x<header>>
      COMP <names...> ; INJ <ctx>                      names: W3C BAG B3 B3M JAEGER
      COMP <names...> ; EXT <ctx> ; x<key> x<value> ...  (carrier contents)
+     PURITY <entries> <threads> <rounds> <iters>        (ThreadSanitizer purity probe; observation PURE,
+                                                         DIFFERS x.., RACE x.., HARNESSRACE x.., HANG, CRASH ..)
        <ctx> = <NOSPAN|SPAN x<tid16> x<sid8> <flags> x<tracestate>> <NOBAG|BAG x<header>>
    observation lines
      OPS : <obj0> ; <obj1> ; ... | <re-read obj0> ; ... | PURE <b> | HDR x<header> | RT <SAME|BAG <entries>>
@@ -31,7 +33,8 @@ Inductive case :=
 | COps (init : option bytes) (ops : list bop)
 | CHdr (h : option bytes) (init : option bytes)
 | CInj (ps : list pname) (ctx : context)
-| CExt (ps : list pname) (ctx : context) (car : carrier).
+| CExt (ps : list pname) (ctx : context) (car : carrier)
+| CPur.     (* PURITY <entries> <threads> <rounds> <iters> : purity probe (harness/c15_purity.cc) *)
 
 (* ---- parsing *)
 Fixpoint parse_entries (l : list tok) : option (list entry) :=
@@ -112,6 +115,11 @@ Definition parse_case (l : list tok) : option case :=
                           | Some hh => if is_tag "BAG" b then Some (CHdr hh (Some i)) else None
                           | None => None
                           end
+        | _ => None
+        end
+      else if is_tag "PURITY" t then
+        match rest with
+        | [TZ _; TZ _; TZ _; TZ _] => Some CPur
         | _ => None
         end
       else if is_tag "COMP" t then
@@ -267,6 +275,7 @@ Definition run_model (l : list tok) : list tok :=
       let pl := map prop_of_name ps in
       join_toks "|" [print_ctx_obs (obs_of_ctx ctx (p_extract (composite pl) car ctx));
                      print_ctx_obs (obs_of_ctx ctx (parts_extract pl car ctx))]
+  | Some CPur => [tag "PURE"]
   | None => bad_case
   end.
 
@@ -289,6 +298,7 @@ Definition run_tag (l : list tok) : list tok :=
                                else if is_nil (p_inject (composite (map prop_of_name ps)) ctx []) then "inj_nothing" else "inj_some")]
   | Some (CExt ps ctx car) => [tag (if is_nil ps then "ext_empty_composite"
                                    else if same_ctx ctx (p_extract (composite (map prop_of_name ps)) car ctx) then "ext_same" else "ext_changed")]
+  | Some CPur => [tag "purity_probe"]
   | None => bad_case
   end.
 
@@ -320,5 +330,6 @@ Definition run_spec (l obs : list tok) : list tok :=
                   end
       | _ => fail "obs:unparsable"
       end
+  | Some CPur => spec_purity_ok obs
   | None => bad_case
   end.
